@@ -27,9 +27,7 @@ import (
 	"encoding/hex"
 	"fmt"
 	"os"
-	"sort"
 	"strings"
-	"sync"
 	"sync/atomic"
 	"time"
 
@@ -37,134 +35,94 @@ import (
 	"verifharness/vlib"
 )
 
-var devKey = map[string]string{
-	"warnNesting":   "C19:warn-block-nested-comment",
-	"aliasSuffix":   "C19:import-alias-suffix-of-path-dropped",
-	"aliasReserved": "C19:import-alias-of-template-reserved-path-dropped",
-	"blank2":        "C19:second-blank-import-dropped",
-	"docDirective":  "C19:doc-comment-directives-dropped",
-	// "staleFile" breaks no C19 statement (it is the C18 finding); the C19 replay only follows it.
-}
-
-var devWhat = map[string]string{
-	"warnNesting":   "leftover code containing a /* */ comment is wrapped in the /* */ WARNING block: the regenerated resolver file does not parse and is written unformatted",
-	"aliasSuffix":   "an aliased import whose alias is a suffix of the import path loses its alias (and is then pruned): the kept method body no longer compiles",
-	"aliasReserved": "an aliased import of a path that resolver.gotpl reserves itself (errors, fmt, io, time, ...) is dropped",
-	"blank2":        "the second blank import of a resolver file is dropped",
-	"docDirective":  "directive lines (//nolint:..., //go:...) of a resolver's doc comment are dropped",
-}
-
 type handler struct {
 	c           *vlib.Check
-	thorough    bool
 	builds      int64
 	buildBudget int64
-	buildFails  int64
-	repaired    sync.Map
-	infra       []string
-	mu          sync.Mutex
-	genClasses  sync.Map
-	devSeen     sync.Map
-	sampled     int32
 }
 
-func (h *handler) addInfra(s string) {
-	h.mu.Lock()
-	h.infra = append(h.infra, s)
-	h.mu.Unlock()
-}
-
-func (h *handler) Generate(c *projgen.Conc, e *projgen.REdge, path []*projgen.REdge) projgen.GenOutcome {
+func (h *handler) RunGenerate(c *projgen.Conc, pre *projgen.PState, path []*projgen.REdge) projgen.GenOutcome {
 	return projgen.RunGen(c.Root, projgen.GenOpts{Explicit: true})
 }
 
-func diffKinds(diffs []string) string {
-	set := map[string]bool{}
-	for _, d := range diffs {
-		f := strings.Fields(d)[0]
-		parts := strings.Split(strings.TrimSuffix(f, ":"), ":")
-		k := parts[0]
-		if k == "meth" && len(parts) >= 4 {
-			k = "meth-" + parts[3]
+// WantBuild: "the resolver files held only resolver methods and the change only added fields":
+// compile before and after (budgeted); the TLA+ postcondition CompileKept judges the pair.
+func (h *handler) WantBuild(pre *projgen.PState) bool {
+	if pre.Dirty == "other" {
+		return false
+	}
+	for _, l := range pre.Helpers {
+		if len(l) > 0 {
+			return false
 		}
-		set[k] = true
 	}
-	var ks []string
-	for k := range set {
-		ks = append(ks, k)
-	}
-	sort.Strings(ks)
-	return strings.Join(ks, "+")
+	return atomic.AddInt64(&h.builds, 1) <= h.buildBudget
 }
 
-func (h *handler) Step(r *projgen.StepResult) bool {
-	e := r.Edge
-	isGen := e.A.Name == "Generate" || e.A.Name == "InitialGenerate"
-	if !isGen {
-		if len(r.Diffs) > 0 {
-			h.addInfra(fmt.Sprintf("after user edit %s the tree does not project onto the predicted state: %v %v", e.A, r.Diffs, r.Obs.Notes))
-			return false
-		}
-		return true
-	}
-	h.c.AddEvals(1)
-	if r.Gen != nil && !r.Gen.OK() {
-		switch r.Gen.Class {
-		case "timeout", "crash":
-			h.addInfra(fmt.Sprintf("generator %s: %s\n%s", r.Gen.Class, projgen.PathString(r.Path), tail(r.Gen.Stderr, 1500)))
-			return false
-		}
-		// the specification makes Generate total: an error or a panic is a violation
-		h.c.Violate("C19:generate-"+r.Gen.Class+":"+e.SSt.Cfg.Rl, fmt.Sprintf("history: %s\ngenerator outcome %s:\n%s", projgen.PathString(r.Path), r.Gen.Class, tail(r.Gen.Stderr, 1500)), projgen.ReplayObject(r))
-		return false
-	}
-	if e.A.Name == "Generate" {
-		cls := sha256.Sum256([]byte(e.S + "|" + e.T))
-		h.genClasses.Store(hex.EncodeToString(cls[:8]), true)
-	}
-	if len(r.Diffs) == 0 {
-		for _, d := range e.A.Devs {
-			key, ok := devKey[d]
-			if !ok {
+func (h *handler) AfterGenerate(r *projgen.Replayer, c *projgen.Conc, rec *projgen.StepRec) {}
+
+// judge turns the recorded steps + TLC's verdicts into the check's verdict.
+func judge(c *vlib.Check, recs []*projgen.StepRec) (infra []string, drift, accepted, violating int) {
+	sampled := 0
+	classes := map[string]bool{}
+	for _, rec := range recs {
+		switch rec.Kind {
+		case "init":
+			c.AddEvals(1)
+			if d, _ := rec.Extra["initDiffs"].([]string); len(d) > 0 {
+				if rec.Gen != nil && (rec.Gen.Class == "timeout" || rec.Gen.Class == "crash") {
+					infra = append(infra, "initial generation: "+rec.Gen.Class)
+					continue
+				}
+				c.Violate("C19:fresh-project:"+rec.Post.Cfg.Rl, fmt.Sprintf("a freshly generated project does not consist of the template's default resolvers: %v\n%v\n%s", d, rec.Obs.Notes, tail(rec.Gen.Stderr, 800)), projgen.ReplayObject(rec))
+			}
+		case "edit":
+			if rec.V == nil || !rec.V.Same {
+				infra = append(infra, fmt.Sprintf("after user edit %s (history %s) the real tree does not project onto the successor of the specification's edit action (harness problem): %v", rec.Act, projgen.PathString(rec.Path), rec.Obs.Notes))
+			}
+		case "gen":
+			c.AddEvals(1)
+			if rec.Drift {
+				drift++
+			}
+			layout := rec.Pre.Cfg.Rl
+			if rec.Gen != nil && !rec.Gen.OK() {
+				// Generate is total in the specification: an error or a panic is a violation
+				c.Violate("C19:generate-"+rec.Gen.Class+":"+layout, fmt.Sprintf("history: %s\ngenerator outcome %s:\n%s", projgen.PathString(rec.Path), rec.Gen.Class, tail(rec.Gen.Stderr, 1500)), projgen.ReplayObject(rec))
+				violating++
 				continue
 			}
-			h.devSeen.Store(d, true)
-			h.c.Violate(key, fmt.Sprintf("%s\nhistory: %s\nlayout: resolver=%s exec=%s\nnotes: %v", devWhat[d], projgen.PathString(r.Path), e.SSt.Cfg.Rl, e.SSt.Cfg.El, r.Obs.Notes), projgen.ReplayObject(r))
-		}
-		if !e.TSt.Ok {
-			return false // the project is broken (as the specification of the pinned tree says); the history ends here
-		}
-		if e.TSt.Comp == "yes" && atomic.AddInt64(&h.builds, 1) <= h.buildBudget {
-			if out, err := projgen.GoBuild(r.Conc.Root); err != nil {
-				if strings.Contains(err.Error(), "timeout after") {
-					h.addInfra("go build timeout")
-					return false
+			if rec.V == nil {
+				infra = append(infra, "no verdict from ProjectStep for "+rec.ID+" ("+projgen.PathString(rec.Path)+")")
+				continue
+			}
+			h := sha256.Sum256([]byte(fmt.Sprintf("%v|%v|%s", rec.Pre, rec.Act, projgen.PathString(rec.Path))))
+			classes[hex.EncodeToString(h[:8])] = true
+			keys, violated := rec.V.Findings("C19", layout)
+			if len(keys) == 0 {
+				accepted++
+				if sampled < 4 && len(rec.Path) >= 3 {
+					sampled++
+					c.Sample(map[string]any{"history": projgen.PathString(rec.Path), "layout": rec.Pre.Cfg, "postconditions_hold": true, "equals_intended_successor": rec.V.IdealEq})
 				}
-				atomic.AddInt64(&h.buildFails, 1)
-				h.c.Violate("C19:compile-lost:"+e.SSt.Cfg.Rl, fmt.Sprintf("the resolver files held only resolver methods and the schema change only added fields, but the package no longer compiles\nhistory: %s\n%s", projgen.PathString(r.Path), tail(out, 1500)), projgen.ReplayObject(r))
-				return false
+				continue
+			}
+			violating++
+			for _, k := range keys {
+				what := projgen.WhatOf(k)
+				detail := fmt.Sprintf("%s\nhistory: %s\nlayout: resolver=%s exec=%s\nviolated postconditions of Generate (spec/Project.tla, intended design): %v\nobserved post-state explained by deviations: %v (explained=%v)\nnotes: %s",
+					what, projgen.PathString(rec.Path), layout, rec.Pre.Cfg.El, violated, rec.V.D, rec.V.Explained, strings.Join(rec.Obs.Notes, "\n"))
+				if b, ok := rec.Extra["buildAfter"].(string); ok {
+					detail += "\ngo build after the run:\n" + b
+				}
+				c.Violate(k, detail, projgen.ReplayObject(rec))
 			}
 		}
-		if atomic.AddInt32(&h.sampled, 1) <= 4 && len(r.Path) >= 3 {
-			h.c.Sample(map[string]any{"history": projgen.PathString(r.Path), "layout": e.SSt.Cfg, "agrees": true})
-		}
-		return true
 	}
-	// the real tree differs from the state the specification of the pinned tree predicts
-	if len(e.A.Devs) > 0 && e.A.Ideal != nil && len(e.A.Ideal.DiffObs(r.Obs)) == 0 {
-		for _, d := range e.A.Devs {
-			h.repaired.Store(d, true)
-		}
-		return false // repaired: agrees with the intended design; the rest of this history assumed the deviation
+	for k := range classes {
+		c.Class(k)
 	}
-	if e.A.Name == "InitialGenerate" {
-		h.c.Violate("C19:fresh-project:"+e.SSt.Cfg.Rl, fmt.Sprintf("a freshly generated project does not have the template's default resolvers: %v\n%v", r.Diffs, r.Obs.Notes), projgen.ReplayObject(r))
-		return false
-	}
-	h.c.Violate("C19:generate-diverges:"+diffKinds(r.Diffs)+":"+e.SSt.Cfg.Rl,
-		fmt.Sprintf("history: %s\nafter the last Generate the real resolver files differ from what the specification prescribes:\n  %s\nnotes: %s\ndeviations modelled on this step: %v",
-			projgen.PathString(r.Path), strings.Join(r.Diffs, "\n  "), strings.Join(r.Obs.Notes, "\n"), e.A.Devs), projgen.ReplayObject(r))
-	return false
+	return
 }
 
 func max64(a, b int64) int64 {
@@ -227,16 +185,23 @@ func main() {
 	if thorough {
 		tasks = append(tasks, task{"MC_Project_edges_deep.cfg", []string{"Query_f1", "T_g"}, 300})
 	}
-	h := &handler{c: c, thorough: thorough, buildBudget: 40}
+	h := &handler{c: c, buildBudget: 40}
 	if thorough {
 		h.buildBudget = 400
 	}
+	override, curDevs, err := projgen.SpecOverride()
+	if err != nil {
+		vlib.Infra("%v", err)
+	}
+	fmt.Printf("C19: tours are generated from the model with the deviations listed open in known_findings.d: %v\n", curDevs)
+	var allRecs []*projgen.StepRec
+	var judgeStates, judgeGen int64
 	var total projgen.ReplayStats
 	var infraErrs []string
 	npaths, exhaustive := 0, true
 	models := []map[string]any{}
 	for ti, tk := range tasks {
-		er, err := vlib.RunTLC(vlib.TLCOpts{Module: "MC_Project", Config: tk.cfg, Workers: 1, Scratch: fmt.Sprintf("%s/edges%d", scratch, ti), Timeout: 15 * time.Minute, HeapGB: 8})
+		er, err := vlib.RunTLC(vlib.TLCOpts{Module: "MC_Project", Config: tk.cfg, Workers: 1, Scratch: fmt.Sprintf("%s/edges%d", scratch, ti), Timeout: 15 * time.Minute, HeapGB: 8, Data: override})
 		if err != nil {
 			vlib.Infra("TLC: %v", err)
 		}
@@ -266,8 +231,17 @@ func main() {
 			tk.cfg, len(g.States), len(g.Edges), len(g.Inits), np, nEdges, nGen, time.Since(t0).Seconds())
 		rep := &projgen.Replayer{G: g, H: h, Name: fmt.Sprintf("c19_%d", ti), Seed: seed*7919 + int64(ti), Pairs: tk.pairs, Files: []string{"a", "b"}, Workers: 6}
 		rep.Run(tries)
-		fmt.Printf("C19: replayed %d edges (%d Generate runs + %d initial generations), %d edges below a stopped step, %d builds so far  [%.0fs]\n",
-			rep.Stats.Edges, rep.Stats.Generates, rep.Stats.Inits, rep.Stats.Skipped, projgen.BuildCount, time.Since(t0).Seconds())
+		fmt.Printf("C19: replayed %d steps (%d Generate runs + %d initial generations), %d tour edges not executed (%d actions inapplicable after drift), %d steps differ from the tour model's prediction, %d builds so far  [%.0fs]\n",
+			rep.Stats.Edges, rep.Stats.Generates, rep.Stats.Inits, rep.Stats.Skipped, rep.Stats.Inapplicable, rep.Stats.Drift, projgen.BuildCount, time.Since(t0).Seconds())
+		js, jg, err := projgen.JudgeSteps(rep.Recs, len(tk.pairs), fmt.Sprintf("%s/judge%d", scratch, ti))
+		if err != nil {
+			vlib.Infra("ProjectStep (verdicts): %v", err)
+		}
+		judgeStates += js
+		judgeGen += jg
+		allRecs = append(allRecs, rep.Recs...)
+		total.Drift += rep.Stats.Drift
+		total.Inapplicable += rep.Stats.Inapplicable
 		total.Edges += rep.Stats.Edges
 		total.Generates += rep.Stats.Generates
 		total.Inits += rep.Stats.Inits
@@ -279,6 +253,11 @@ func main() {
 	}
 	fmt.Printf("C19: generator processes: %d, mean %.2fs; go build: %d, mean %.2fs\n", projgen.GenCount, float64(projgen.GenNanos)/1e9/float64(max64(projgen.GenCount, 1)), projgen.BuildCount, float64(projgen.BuildNanos)/1e9/float64(max64(projgen.BuildCount, 1)))
 
+	jInfra, drift, accepted, violating := judge(c, allRecs)
+	fmt.Printf("C19: verdicts by TLC (ProjectStep, %d steps): %d Generate steps satisfy the statements' postconditions, %d violate them; implementation-level drift from the tour model on %d steps (not a verdict)  [%.0fs]\n",
+		judgeStates, accepted, violating, drift, time.Since(t0).Seconds())
+	infraErrs = append(infraErrs, jInfra...)
+	c.AddStates(judgeStates, judgeGen)
 	mc := <-mcDone
 	if !mc.OK {
 		vlib.Infra("TLC reports an error on the model itself (%s):\n%s", mcCfg, tail(mc.Output, 4000))
@@ -289,23 +268,18 @@ func main() {
 		}
 	}
 	c.AddStates(mc.Distinct, mc.Generated)
-	if len(infraErrs)+len(h.infra) > 0 {
-		all := append(append([]string{}, infraErrs...), h.infra...)
+	if len(infraErrs) > 0 {
+		all := infraErrs
 		vlib.Infra("%d harness-side problems, first:\n%s", len(all), all[0])
 	}
 	if total.Generates == 0 {
 		vlib.Infra("vacuous: no Generate step replayed")
 	}
 	c.AddTraces(int64(npaths))
-	nclass := 0
-	h.genClasses.Range(func(k, _ any) bool { c.Class(k.(string)); nclass++; return true })
-	var repaired []string
-	h.repaired.Range(func(k, _ any) bool { repaired = append(repaired, k.(string)); return true })
-	sort.Strings(repaired)
-	c.Set("rule", "TLC enumerates the state graph of Project.tla (pinned-tree deviations on) up to the history bound; vlib.CoverPaths gives histories covering EVERY edge; each is replayed through the real generator and the go/parser projection of the resolver files is compared with TLC's successor state after every action; a class = one distinct Generate edge (pre-state, post-state)")
+	c.Set("rule", "TLC enumerates the state graph of Project.tla (with the deviations currently listed open) up to the history bound; vlib.CoverPaths gives histories covering EVERY edge; each is replayed as an action script through the real generator; every step is recorded as (observed pre-state, action, observed post-state) and TLC (ProjectStep.tla) evaluates the statements' postconditions of the INTENDED design on it; a class = one distinct observed Generate step")
 	c.Set("exhaustive", exhaustive && total.Skipped == 0)
 	c.Set("model", map[string]any{"mc_config": mcCfg, "mc_distinct": mc.Distinct, "mc_generated": mc.Generated, "edge_graphs": models})
-	c.Set("replay", map[string]any{"histories": npaths, "edges_replayed": total.Edges, "generate_runs": total.Generates, "initial_generations": total.Inits, "edges_below_stopped_steps": total.Skipped, "go_builds": projgen.BuildCount, "deviations_repaired": repaired})
+	c.Set("replay", map[string]any{"histories": npaths, "edges_replayed": total.Edges, "generate_runs": total.Generates, "initial_generations": total.Inits, "edges_below_stopped_steps": total.Skipped, "go_builds": projgen.BuildCount, "tour_model_deviations": curDevs, "impl_level_drift": total.Drift, "actions_inapplicable_after_drift": total.Inapplicable, "generate_steps_accepted": accepted, "generate_steps_violating": violating})
 	c.Assume("resolver fields are String! fields of Query and of one object type with @goField(forceResolver); bodies, doc comments, helpers and imports come from seeded pools (harness/projgen/pool.go), gofmt-formatted like an editor would")
 	c.Assume("'user imports are kept' is bound for imports that the surviving methods of the file still reference (imports.Prune removing an import nothing references is not a loss); doc comments of helper declarations and free-floating comments are not 'code of a declaration'")
 	c.Assume("a method declared in two resolver files at once (only possible after the stale-file deviation, package does not compile) is followed as the code behaves but MethodsKept demands nothing for it")
@@ -326,11 +300,17 @@ func runReplayFile(path string) {
 	h := &handler{c: c, buildBudget: 10}
 	rep := &projgen.Replayer{G: g, H: h, Name: "c19_replay", Seed: seed, Pairs: pairs, Files: files, Workers: 1}
 	rep.Run(map[string]*projgen.Trie{g.Inits[0]: projgen.PathTrie([][]*projgen.REdge{p})})
-	fmt.Printf("C19 replay: %s: %d edges replayed\n", projgen.PathString(p), rep.Stats.Edges)
-	if len(rep.Errs)+len(h.infra) > 0 {
-		vlib.Infra("%v %v", rep.Errs, h.infra)
+	fmt.Printf("C19 replay: %s: %d steps replayed\n", projgen.PathString(p), rep.Stats.Edges)
+	js, jg, err := projgen.JudgeSteps(rep.Recs, len(pairs), vlib.Work("C19", "replay-judge"))
+	if err != nil {
+		vlib.Infra("ProjectStep (verdicts): %v", err)
+	}
+	jInfra, _, accepted, violating := judge(c, rep.Recs)
+	fmt.Printf("C19 replay: %d Generate steps satisfy the postconditions, %d violate them\n", accepted, violating)
+	if len(rep.Errs)+len(jInfra) > 0 {
+		vlib.Infra("%v %v", rep.Errs, jInfra)
 	}
 	c.AddTraces(1)
-	c.AddStates(int64(len(g.States)), int64(len(g.Edges)))
+	c.AddStates(js, jg)
 	c.Finish()
 }
